@@ -173,7 +173,7 @@ type VerifTaintWorld struct {
 	Err    error
 }
 
-func VerifNewTaintWorld(args, rets [][]int, sinkOperand int) *VerifTaintWorld {
+func VerifNewTaintWorld(args, rets [][]int, sinkOperand int, sameValueTwice bool) *VerifTaintWorld {
 	w := &VerifTaintWorld{}
 	intT := types.Type(types.Typ[types.Int])
 	pkg := &ssa.Package{Pkg: types.NewPackage("example.com/p", "p")}
@@ -195,6 +195,9 @@ func VerifNewTaintWorld(args, rets [][]int, sinkOperand int) *VerifTaintWorld {
 	cG := &ssa.Call{}
 	cG.Call.Value = g
 	cG.Call.Args = []ssa.Value{cSrc, cOther}
+	if sameValueTwice {
+		cG.Call.Args = []ssa.Value{cSrc, cSrc} // g(t0, t0)
+	}
 	typed(cG, intT)
 	vals := []ssa.Value{cSrc, cOther, cG}
 	cSink := &ssa.Call{}
